@@ -25,7 +25,8 @@ RULE = ("(i) token soup over ~80 lexer fragments up to 5 fragments (length <= 2 
         "relative pointers / patches (delete, insert, duplicate, transpose; unterminated quotes and regexes; exponents, oversized numbers, lone signs, reserved words, custom-looking "
         "tokens); (iii) every compiled query x documents of every JSON type; (iv) patch lists whose elements and members are of every JSON type; non-trivial = the input is not empty")
 TRUSTED = ["Lean 4.33 kernel; standard axioms only", "pointer/patch models tied to the implementation on the fuzz streams", "5 s alarm per call as the termination probe"]
-ASSUMPTIONS = ["inputs nested at most 100 levels", "patches and documents are supplied as parsed values"]
+ASSUMPTIONS = ["inputs nested at most 100 levels", "patches and documents are supplied as parsed values",
+               "numerals longer than CPython's 4300-digit int/str conversion limit are outside the model (its numbers are unbounded); the implementation is still checked on them for error family and termination"]
 
 FRAGS = ["$", "@", "#", "_", "^", "~", "|", "&", ".", "..", "*", "?", "[", "]", "(", ")", ",", ":", "!", "==", "!=", "<", "<=", ">", ">=", "<>", "=~", "&&", "||", "and", "or", "not",
          "in", "contains", "true", "false", "null", "nil", "none", "undefined", "missing", "True", "None", "a", "ab", "_x", "é", "😀", "0", "1", "-1", "01", "-0", "1e2", "1E+2", "1e-2",
@@ -97,6 +98,19 @@ def gen(ctx):
             cases.append({"kind": "pointer", "text": t, "doc": ctx.rng.choice(DOCS), "ue": True})
         for t in ["1" * k, "0+" + "1" * k, "0" + "#" * k, "0/" + "a" * k, "0-" + "0" * k + "1", "1" * k + "#"]:
             cases.append({"kind": "rel", "text": t, "base": "/a/0"})
+    # numerals at CPython's int <-> str conversion limit (4300 digits): the model's numbers are unbounded, so these
+    # are checked for error family and termination only
+    for k in (4299, 4300, 4301):
+        nine = "9" * k
+        for t, b in [("0+" + nine, "/1"), ("0+" + nine, "/a/0"), ("0-" + nine, "/" + nine), ("0+1", "/" + nine), ("0-1", "/1" + "0" * (k - 1)), ("0+" + nine + "#", "/1"), (nine, "/a"),
+                     (nine + "#", "/a"), ("1+" + nine + "/x", "/a/1/b"), ("0+9", "/a/" + nine), ("0+" + nine, "/" + nine)]:
+            cases.append({"kind": "rel", "text": t, "base": b, "nomodel": True})
+        for t in ["/" + nine, "/a/" + nine, "/a/-" + nine, "/#" + nine]:
+            cases.append({"kind": "pointer", "text": t, "doc": copy.deepcopy(DOCS[8]), "ue": True, "nomodel": True})
+        for t in ["$[%s]", "$[-%s]", "$[:%s]", "$[::%s]", "$[?@ == %s]", "$[?@ == -%s]", "$[?@ == %s.5]", "$[?@ == 1e%s]", "$[?@ == 1e-%s]", "$[?@ == 1.5e%s]", "$[?@[%s] == 1]", "$.a[%s, 1]"]:
+            cases.append({"kind": "query", "text": t % nine, "nomodel": True})
+        for op in ({"op": "add", "path": "/a/" + nine, "value": 1}, {"op": "remove", "path": "/a/" + nine}, {"op": "copy", "from": "/a/" + nine, "path": "/z"}):
+            cases.append({"kind": "patch", "ops": [op], "doc": copy.deepcopy(DOCS[8]), "nomodel": True})
     base = qpool.all_texts()
     for _ in range(n):
         t = ctx.rng.choice(base)
@@ -174,9 +188,11 @@ def _evaluate(ctx, cases):
         if len(hung) >= 5:
             return
     # character-level lexer model vs Lexer.tokenize on every query text of the fuzz streams
-    lexcorr.run_texts(ctx, jsonpath.DEFAULT_ENV, [c["text"] for c in cases if c["kind"] in ("query", "evalgrid")])
+    lexcorr.run_texts(ctx, jsonpath.DEFAULT_ENV, [c["text"] for c in cases if c["kind"] in ("query", "evalgrid") and not c.get("nomodel")])
     reqs, meta = [], []
     for c in cases:
+        if c.get("nomodel"):
+            continue
         if c["kind"] == "pointer":
             try:
                 reqs.append({"op": "ptr.resolve", "s": c["text"], "ue": c["ue"], "doc": core.enc(c["doc"])})
